@@ -566,7 +566,16 @@ pub fn soak_long(prop: &'static str, len: usize) -> Space {
 /// that EACH of its lines in turn is the (B-1)-th, B-th, (B+1)-th ... event. Judged step by step by
 /// the monitor: no result may depend on how much the parser has already seen.
 pub fn wrap(prop: &'static str, thorough: bool) -> Space {
-    let bounds: &'static [u64] = if thorough { &[256, 65_536, 131_072, 1 << 20] } else { &[256, 65_536] };
+    wrap_bounds(prop, if thorough { &[256, 65_536, 131_072, 1 << 20] } else { &[256, 65_536] })
+}
+
+/// C01 / C18 run the 2^16 boundary in the thorough tier only (their quick tiers are the longest;
+/// ASM-SOAK-LONG already takes their line, group and delivery counts across 2^16).
+pub fn wrap_light(prop: &'static str, thorough: bool) -> Space {
+    wrap_bounds(prop, if thorough { &[256, 65_536, 131_072, 1 << 20] } else { &[256] })
+}
+
+fn wrap_bounds(prop: &'static str, bounds: &'static [u64]) -> Space {
     const FILL: u64 = 7; // filler kinds
     const OFFS: u64 = 12; // B-9 ..= B+2 filler units before the scenario (the scenario has up to 9 lines)
     // (boundary, noise after fragment 1, noise after fragment 2): all 16 noise pairs at 2^8, the four
